@@ -202,6 +202,46 @@ func c18(r *core.Run) {
 			"Get decodes with the inverse of what Put encodes with (binary marshaler else JSON)", "Put uses "+strings.Join(a.put, ",")+" but Get uses "+strings.Join(a.get, ","))
 	}
 	c18Presence(r)
+	byteWrapLint(r, "C18.L2", "pkg/shed/leveldb", "pkg/statestore/leveldb", "pkg/statestore/mock")
+	// prefix iteration of the persistent store goes through the driver's Search: a prefix
+	// query is turned into a key range by the goleveldb helper (or by code passing L2)
+	c18PrefixRange(r)
+}
+
+// c18PrefixRange (P2): LevelDB.Search builds the range of a prefix query from the query's own
+// prefix bytes.
+func c18PrefixRange(r *core.Run) {
+	fn := r.W.Func("pkg/shed/leveldb", "(*LevelDB).Search")
+	if fn == nil {
+		r.Fatal("unresolved anchor pkg/shed/leveldb.(*LevelDB).Search")
+		return
+	}
+	r.Saw(core.FuncName(fn))
+	r.Eval(core.EdgeCount(fn))
+	n := 0
+	for _, c := range core.Calls(fn, "(*github.com/syndtr/goleveldb/leveldb.DB).NewIterator", "(*github.com/syndtr/goleveldb/leveldb.Snapshot).NewIterator") {
+		n++
+		rng := core.Common(c).Args[1]
+		ok := core.DerivesFrom(rng, func(v ssa.Value) bool {
+			if core.IsNilConst(v) {
+				return true
+			}
+			bc, _ := core.CallOf(v)
+			if bc == nil {
+				return false
+			}
+			// any range constructor fed with the query's prefix data
+			for _, a := range bc.Call.Args {
+				if fr, ok := core.AsField(core.Forward(a)); ok && fr.Name == "Data" {
+					return true
+				}
+			}
+			return false
+		}, nil)
+		r.Check("C18.P2", core.Key("C18.P2", fn, "iterator range built from the query prefix"), c.Pos(), ok,
+			"the iterator's key range is nil (whole store) or built from the query's prefix bytes", "the iterator range does not derive from the query prefix")
+	}
+	r.Floor("C18.P2", "iterators opened by Search", n, 1)
 }
 
 // c18Presence (G2): both stores report "not found" by key membership, never by looking at
